@@ -265,11 +265,16 @@ def rule_label(ctx: Ctx) -> RuleReport:
     rep.unit(pp.key)
     prm = pp.node.args.args[1].arg if len(pp.node.args.args) > 1 else "path"
     path_objs = {a.targets[0].id for a in walk_own(pp.node) if isinstance(a, ast.Assign) and len(a.targets) == 1 and isinstance(a.targets[0], ast.Name) and isinstance(a.value, ast.Call) and (dotted(a.value.func) or "").split(".")[-1] in ("Path", "PurePath", "PurePosixPath")}
-    lex = [i for i in walk_own(pp.node) if isinstance(i, ast.If) and norm(i.test) in ("not resolve", "resolve is False", "resolve == False")]
-    if not lex:
+    # the statements executed for resolve=False, wherever they stand (`if not resolve: ... return`, or the else of `if resolve:`)
+    def lexical_only(st_):
+        conds_, _o, _l = path_conditions(pp.node, st_)
+        return any(str(c_) in ("not resolve", "resolve is False", "resolve == False") for c_ in conds_)
+
+    lex_assigns = [x for x in walk_own(pp.node) if isinstance(x, ast.Assign) and lexical_only(x)]
+    if not any(isinstance(t, ast.Attribute) and t.attr in ("file_path", "folder_path") for a in lex_assigns for t in a.targets):
         raise AnalysisError("C10-LABEL: the resolve=False branch of populate_from_path was not found")
     derived = set()
-    for a in [x for st in lex[0].body for x in ast.walk(st) if isinstance(x, ast.Assign)]:
+    for a in sorted(lex_assigns, key=lambda x: x.lineno):
         for t in a.targets:
             names = {x.id for x in ast.walk(a.value) if isinstance(x, ast.Name)}
             if isinstance(t, ast.Attribute) and t.attr in ("file_path", "folder_path"):
